@@ -67,6 +67,7 @@ async def run_schedule(config: dict, prefix: list[int], rng=None) -> Outcome:
     if transport.writes:
         out.problems.append(("pre-park-wrote", f"buffered set for a sleeping node was written at send time: {transport.writes}"))
     transport.gate = True
+    transport.fault_class = config.get("fault_class", "TransportFailedError")
 
     start_events = [asyncio.Event() for _ in config["senders"]]
     started = [False] * len(config["senders"])
